@@ -503,6 +503,30 @@ func checkC15(w *World, r *Run) {
 			r.Check(missing == "" && wp != "" && wp == rp, ruleCodec, "compression: header writer and parser use the same offsets", nh.Pos(), fmt.Sprintf("windows %v; algorithm id at [%s]", wr, wp), fmt.Sprintf("the parser does not read window %s the writer fills, or the algorithm id is written at [%s] and read at [%s]", missing, wp, rp))
 		}
 	}
+	// the compression header is written for every part, compressed or not: GetPart tells the
+	// two apart by the header alone, so a raw part whose bytes look like a header is misread
+	if fn := w.SSAFunc(relCompression, "PartStoreMiddleware.PutPart"); fn == nil {
+		r.Anchor(ruleCodec, "compression.PutPart")
+	} else {
+		good, why := false, "no header write found"
+		allInstrs(fn, true, func(lit *ssa.Function, ins ssa.Instruction) {
+			c, ok := ins.(*ssa.Call)
+			if !ok || !isCallNamed(c, "Write") {
+				return
+			}
+			if !sliceContains(c.Call.Args[len(c.Call.Args)-1], false, func(x ssa.Value) bool { return isCallNamed(x, "newHeader") }) {
+				return
+			}
+			// dominates every body copy of the same function literal
+			good, why = true, ""
+			allInstrs(lit, false, func(_ *ssa.Function, i2 ssa.Instruction) {
+				if cp, ok := i2.(*ssa.Call); ok && isCallNamed(cp, "Copy") && !instrDominates(c, cp) {
+					good, why = false, "the body copy at "+w.Pos(posOf(cp))+" is not preceded by the header write on every path"
+				}
+			})
+		})
+		r.Check(good, ruleCodec, "compression: PutPart writes the header before every body, compressed or not", fn.Pos(), "Write(newHeader(algorithm)) dominates both Copy calls", why+": an uncompressed part stored without header whose first 32 bytes happen to form a valid header loses them (or fails to decode) on read")
+	}
 	for _, pair := range [][2]string{{"erasureCodingPartStore.shardHeader", "parseShardHeader"}, {"encodeFrameHeader", "parseFrameHeader"}} {
 		wf, rf := w.Func(relErasure, pair[0]), w.Func(relErasure, pair[1])
 		if wf == nil || rf == nil {
